@@ -258,6 +258,11 @@ def schemes(draw, *, labels="neutral", allow_full=True, max_datasets=4, features
             d["repr"] = {"dtype": draw(st.sampled_from(["float64", "float32", "int64"])),
                          "layout": draw(st.sampled_from(["C", "F", "strided", "readonly"])),
                          "axis_int": draw(st.booleans())}
+    if not any(w.get("model_interval") is not None for w in weights) and draw(st.integers(0, 5)) == 0:
+        # likewise the model axis (e.g. a time axis recorded backwards), unless an item acts on an index range of it
+        for d in datasets:
+            d["model_axis"] = list(d["model_axis"])[::-1]
+        case["model_axis_order"] = "descending"
     range_items = bool(penalties) or any(w.get("global_interval") is not None for w in weights)
     if not range_items and draw(st.integers(0, 3)) == 0:
         # global axes as instruments deliver them: descending (wavenumbers), or in acquisition order.  Items that act on index
